@@ -32,6 +32,16 @@ CHECKS = {
             "Design-level: Final/acyclic/DepsFirst/NoStuck/Complete/termination checked exhaustively for <=2 (quick) / <=3 (thorough) requested keys of a 9-key pool covering all key classes under ANY pop order, plus the isotropic-limit theorem. Implementation-level: every recorded resolve/calculate/get run is validated step by step against the faithful bag model (queue lengths, dedup decisions, edges, evaluation order, isothermal-only reads), and request independence / isotropy / axis covariance are checked on the numbers for simulated request sequences incl. the full 21-key request.",
             "Trusted: projection of real task parameters onto specification task ids by strain values (cv/schedtrace.py); runs whose projection is not injective (ordered vs unordered off-diagonal pairs) are skipped for trace validation and counted in the evidence. Bounds: MaxReq 2/3 on a 9-key pool for exhaustive exploration.",
             "DESIGN.md section 4 C04"),
+    "C08": ("model_checking",
+            "TLC decides equality of the relation subspace and the Laue-invariant subspace for the nine systems exactly (group closure, action on the 21-dim tensor space, Reynolds projector, rational null space; spec/Symmetry.tla, Fill.tla, LinAlg.tla, C08.tla) on relations regenerated from /repo; fill replay on TLC-computed invariant tensors",
+            "Both subspace inclusions and the dimensions are decided exactly by TLC for all nine systems on the relation files of the current tree (a sign or factor edited in a file is a TLC counterexample naming system and inclusion). The fill half replays TLC-computed invariant tensors restricted to sufficient subsets (from the C09 lattice) through fill_cij and apply_symetry_on_elast_data.",
+            "Trusted: the generators of Symmetry.tla (textbook standard setting), the independent relation-file parser cv/relparse.py, float comparison 1e-9.",
+            "DESIGN.md section 4 C08"),
+    "C09": ("model_checking",
+            "TLC explores the lattice of supplied-component subsets (49k states) deciding 'determined' by exact integer elimination in two formulations that must agree (spec/C09.tla); dumped states and the exported refusal table replayed through fill_cij and `cij fill` under flag and environment variants",
+            "Every subset of the non-vanishing components of six systems (top of the lattice for the three large ones) is a TLC state with the exact decision; the implementation is run on a stratified sample of those states x value class x flags x environment (column order, case, int columns, extra columns, directory named like the system, relations-file path) and through the CLI.",
+            "Trusted: value classes are consistent or off by 50 GPa (nothing near the tolerance); (under-determined, inconsistent, ignore_rank) not asserted; 'raises' = any exception.",
+            "DESIGN.md section 4 C09"),
 }
 
 NOT_YET = {
